@@ -212,13 +212,28 @@ func genProg(tp *core.Tape, idx int, ep *core.Episode, method string) *respProg 
 	case 1:
 		ep.Probe("mode-setbody")
 		p.body = body
-		p.ops = append(p.ops, func(ctx *app.RequestContext) { ctx.Response.SetBody(body) })
+		p.ops = append(p.ops, func(ctx *app.RequestContext) {
+			// SetBody copies: the handler's buffer is its own again right away
+			tmp := append([]byte(nil), body...)
+			ctx.Response.SetBody(tmp)
+			for i := range tmp {
+				tmp[i] = '~'
+			}
+		})
 	case 2:
 		ep.Probe("mode-append")
 		p.body = body
 		cut := tp.Choose("cut", size+1)
 		p.ops = append(p.ops, func(ctx *app.RequestContext) {
-			ctx.SetBodyString(string(body[:cut]))
+			if cut%2 == 1 {
+				tmp := append([]byte(nil), body[:cut]...)
+				ctx.Response.SetBody(tmp)
+				for i := range tmp {
+					tmp[i] = '~'
+				}
+			} else {
+				ctx.SetBodyString(string(body[:cut]))
+			}
 			ctx.Response.AppendBody(body[cut:])
 		})
 	case 3:
